@@ -118,7 +118,14 @@ static int check_tables(int subset, const char *builder, int deep)
 			t_len(&w, 3 + sym); t_dist(&w, dist);
 			for (int j = 0; j < 3 + sym; j++, xl++) x[xl] = x[xl - dist];
 		}
-	if (IGZIP_DIST_TABLE_SIZE > 2)
+	if (IGZIP_DIST_TABLE_SIZE > 2) {
+		/* LONGER_HUFFTABLE builds: the packed distance table covers distances up to 8 KiB; first produce enough history */
+		while (xl && xl <= (size_t)IGZIP_DIST_TABLE_SIZE + 8) {
+			t_len(&w, 258); t_dist(&w, 1);
+			for (int j = 0; j < 258; j++, xl++) x[xl] = x[xl - 1];
+		}
+	}
+	if (IGZIP_DIST_TABLE_SIZE > 2 && xl)
 		for (int dist = 3; dist <= IGZIP_DIST_TABLE_SIZE; dist += 1 + dist / 64) {
 			t_len(&w, 4); t_dist(&w, dist);
 			for (int j = 0; j < 4; j++, xl++) x[xl] = x[xl - dist];
